@@ -258,11 +258,11 @@ def chain(ctx: Ctx, rep: Report) -> None:
     f, g = fn(R.BASE, 'send_outgoing')
     brk = [n for n in g.nodes if isinstance(n.stmt, ast.Break)]
     t = [x for x in g.nodes if x.kind == 'test' and norm(
-        x.stmt.test) == 'not self.running']
+        x.stmt.test) == 'self.running']
     rep.count()
     rep.check(
         len(t) == 1 and len(brk) >= 1 and g.edge_dominates(
-            t[0].id, 'true', brk[0].id), M, 'ServerBase.send_outgoing:stop',
+            t[0].id, 'false', brk[0].id), M, 'ServerBase.send_outgoing:stop',
         f.path, f.lineno, 'the outgoing loop ends once running is cleared',
         'the outgoing loop cannot be stopped', key='stop',
     )
@@ -392,12 +392,12 @@ def chain(ctx: Ctx, rep: Report) -> None:
         )
     f, g = fn(R.DET, 'handle_error')
     t = [x for x in g.nodes if x.kind == 'test' and norm(
-        x.stmt.test) == 'not isinstance(error_payload, tuple)']
+        x.stmt.test) == 'isinstance(error_payload, tuple)']
     rep.count()
     rep.check(
         len(t) == 1 and g.must(
             q.has_call('self.handle_shutdown', []),
-            start=[b for b, l in g.succ[t[0].id] if l == 'true'][0],
+            start=[b for b, l in g.succ[t[0].id] if l == 'false'][0],
             ends={g.exit, g.raise_exit}, labels_off=['assert-fail']), M,
         'DetachedServer.handle_error:system', f.path, f.lineno,
         'an internal error bubbling up from a worker shuts the server down',
